@@ -177,6 +177,17 @@ func (s Srv) getRaw(uuid string, supervoxels bool) ([]uint64, int) {
 	return bytesU64(r.Body), stOK
 }
 
+// getRawLo reads the whole volume at scale 1.
+func (s Srv) getRawLo(uuid string, supervoxels bool) ([]uint64, int) {
+	h := s.g.Half()
+	n, off := h.N(), h.Off()
+	r := dv.Get(s.url(uuid, fmt.Sprintf("raw/0_1_2/%d_%d_%d/%d_%d_%d?scale=1&supervoxels=%t", n[0], n[1], n[2], off[0], off[1], off[2], supervoxels)))
+	if status(r) != stOK || len(r.Body) != 8*h.NVox() {
+		return make([]uint64, h.NVox()), stErr
+	}
+	return bytesU64(r.Body), stOK
+}
+
 // postRaw writes a block-aligned region (local block box) of `vol`.
 func (s Srv) postRaw(uuid string, vol []uint64, b0, nb [3]int, mutate bool) dv.Resp {
 	bs := s.g.BS
